@@ -32,6 +32,22 @@ def main():
                     r = int(line.rsplit('->', 1)[1]); n = int(line.split()[2])
                     if r < 0 or (fault['kind'] == 'short' and 0 < r < n): tripped = 1
         return rc, so, se, tripped
+    def run_piped(args, data, cuts):
+        """the input arrives on standard input through a pipe, written in bursts cut at the given offsets
+        with a pause in between, so that read() returns short counts before the end of the stream"""
+        import time
+        p = subprocess.Popen(args, stdin=subprocess.PIPE, stdout=subprocess.PIPE, stderr=subprocess.PIPE, env=env0, cwd=work)
+        pos = 0
+        try:
+            for cut in list(cuts) + [len(data)]:
+                if cut > pos: p.stdin.write(data[pos:cut]); p.stdin.flush(); pos = cut; time.sleep(0.12)
+            p.stdin.close()
+        except BrokenPipeError:
+            pass
+        try: p.wait(timeout=60)
+        except subprocess.TimeoutExpired: p.kill(); p.wait()
+        se = p.stderr.read(); p.stdout.close(); p.stderr.close()
+        return p.returncode, b'', se, 0
     def sha(p): return hashlib.sha256(open(p, 'rb').read()).hexdigest() if os.path.exists(p) else None
     events = []
     for sc in json.load(open(scen)):
@@ -48,7 +64,9 @@ def main():
                 open(os.path.join(work, 'key.txt'), 'wb').write(bytes(sc['keyfile'])); pwargs = ['-k', 'key.txt']
             what = sc['what']          # roundtrip | wrongpw | flip | trunc | extend | fault_enc | fault_dec
             fault = sc.get('fault')
-            rc_e, so, se_e, trip_e = run([CRYPT, '-e'] + pwargs + ['-o', enc, plain], fault if what == 'fault_enc' else None)
+            if 'pipe_enc' in sc: rc_e, so, se_e, trip_e = run_piped([CRYPT, '-e'] + pwargs + ['-o', enc, '-'], content, sc['pipe_enc'])
+            else: rc_e, so, se_e, trip_e = run([CRYPT, '-e'] + pwargs + ['-o', enc, plain], fault if what == 'fault_enc' else None)
+            ev.update({'pipe_enc': sc.get('pipe_enc', []), 'pipe_dec': sc.get('pipe_dec', [])})
             ev.update({'what': what, 'size': len(content), 'fault': fault or {'op': 'none', 'k': 0, 'kind': 'none'},
                        'exit_enc': rc_e, 'stderr_enc': 1 if se_e else 0, 'enc_exists': 1 if os.path.exists(enc) else 0,
                        'enc_size': os.path.getsize(enc) if os.path.exists(enc) else -1, 'tripped': trip_e})
@@ -60,7 +78,8 @@ def main():
                     elif what == 'extend': data += bytes(sc['extra'])
                     open(enc, 'wb').write(bytes(data))
                 dpw = ['-p', sc['pw2']] if what == 'wrongpw' else pwargs
-                rc_d, so, se_d, trip_d = run([CRYPT, '-d'] + dpw + ['-o', dec, enc], fault if what == 'fault_dec' else None)
+                if 'pipe_dec' in sc: rc_d, so, se_d, trip_d = run_piped([CRYPT, '-d'] + dpw + ['-o', dec, '-'], open(enc, 'rb').read(), sc['pipe_dec'])
+                else: rc_d, so, se_d, trip_d = run([CRYPT, '-d'] + dpw + ['-o', dec, enc], fault if what == 'fault_dec' else None)
                 ev.update({'exit_dec': rc_d, 'stderr_dec': 1 if se_d else 0, 'dec_exists': 1 if os.path.exists(dec) else 0,
                            'same': 1 if os.path.exists(dec) and open(dec, 'rb').read() == content else 0})
                 if what == 'fault_dec': ev['tripped'] = trip_d
